@@ -480,8 +480,16 @@ type SpecFile struct {
 	TypeInvs  map[string][]Clause // keyed by type text
 	Guarded   []string
 	TableExceptions []string
+	OpTable   []OpRow
 	GlobalInvs []Clause
 	Pragmas   []string // every "trusted"/"assume"-like pragma seen (for the evidence)
+}
+
+// OpRow: one row of the operator table of property C03 (pragma `optable LEVEL ASSOC: TOKENS`).
+type OpRow struct {
+	Level  int
+	Assoc  string // left | right | unary | postfix
+	Tokens []string
 }
 
 func newSpecFile() *SpecFile {
@@ -862,6 +870,19 @@ func loadSpecFile(path string, sf *SpecFile) error {
 			}
 			sf.TableExceptions = append(sf.TableExceptions, f[0])
 			sf.Pragmas = append(sf.Pragmas, "table_exception: "+rest)
+			cur = nil
+		case "optable":
+			// optable LEVEL left|right|unary|postfix: TOKEN TOKEN ...
+			hd, tl, ok := strings.Cut(rest, ": ")
+			f := strings.Fields(hd)
+			if !ok || len(f) != 2 {
+				return fail(fmt.Errorf("optable LEVEL left|right|unary|postfix: TOKENS"))
+			}
+			lv, err := strconv.Atoi(f[0])
+			if err != nil || (f[1] != "left" && f[1] != "right" && f[1] != "unary" && f[1] != "postfix") {
+				return fail(fmt.Errorf("optable LEVEL left|right|unary|postfix: TOKENS"))
+			}
+			sf.OpTable = append(sf.OpTable, OpRow{lv, f[1], strings.Fields(tl)})
 			cur = nil
 		case "global_inv":
 			c, err := parseClause(rest, nil)
